@@ -54,6 +54,12 @@ def gen(W):
     return sc
 
 
+def Violation_spin(v_):
+    """a connection that is never closed while the I/O loop spins on it (the run ended at its step bound)"""
+    v_.disc = v_.disc + "+loop_spins"
+    return v_
+
+
 def run_one(tapes, tier, scenario=None):
     sc = scenario if scenario is not None else gen(tapes.W)
     res = RunResult()
@@ -240,7 +246,20 @@ def run_one(tapes, tier, scenario=None):
         if t[3] is not None or (t[0] == "io" and not t[2]):
             res.v("thread_died", t[0], "thread %s alive=%s exc=%s" % (t[0], t[2], t[3]))
     if k.end_reason == "step_cap":
-        res.harness_error = "step cap reached"
+        # the history is cut short: the clauses that look at the final state decide nothing.  "Still open long after
+        # it should have been reaped" stands on a prefix too (a loop that spins has its clock moved on by the kernel,
+        # in hops of at most 4 s - hence the extra margin), and so do the clauses about the map size and busy channels.
+        keep = []
+        for v_ in res.violations:
+            if v_.clause in ("limit", "reaped_while_busy"):
+                keep.append(v_)
+            elif v_.clause == "not_reaped" and k.probes.get("spin_fast_forward") and "still open at t=" in v_.msg:
+                idle_since = float(v_.msg.split("idle since t=")[1].split(" ")[0])
+                if (end_t - t0) > idle_since + T + C + L + 1.0 + 8.0:
+                    keep.append(Violation_spin(v_))
+        res.violations = keep
+        if not keep:
+            res.harness_error = "step cap reached"
     if k.harness_error:
         res.harness_error = k.harness_error
     res.digest = k.digest()
